@@ -21,7 +21,9 @@ CONSTANTS MinD, MaxD,   \* connection distance window (same units as the distanc
 VARIABLES tree          \* Seq([parent : 0..Len, cost : Int, dn : Int])  dn = distance to then-nearest
 
 AbsI(x) == IF x < 0 THEN -x ELSE x
-Accepts(d, coll) == d >= MinD /\ d <= MaxD /\ ~coll
+(* acceptance window; within Tol of a bound (quantised float distances) both outcomes are allowed *)
+Accepts(d, coll) == d >= MinD - Tol /\ d <= MaxD + Tol /\ ~coll
+Rejects(d, coll) == d < MinD + Tol \/ d > MaxD - Tol \/ coll
 
 (* candidates = the then-nearest node (already known collision-free) and every examined
    neighbour with a free edge; dv[j], cv[j] = distance / collision of the sample to node j *)
@@ -30,7 +32,7 @@ Val(j, dv) == tree[j].cost + dv[j]
 BestVal(n0, exam, dv, cv) ==
     LET V == {Val(j, dv) : j \in Cands(n0, exam, cv)} IN CHOOSE m \in V : \A x \in V : m <= x
 
-RejectOK(n0, d, coll) == n0 \in DOMAIN tree /\ ~Accepts(d, coll)
+RejectOK(n0, d, coll) == n0 \in DOMAIN tree /\ Rejects(d, coll)
 
 Place(n0, exam, dv, cv, parent, cost) ==
     /\ n0 \in DOMAIN tree /\ exam \subseteq DOMAIN tree
@@ -47,6 +49,6 @@ ChainTo(t, j) == IF j = 0 THEN <<>> ELSE Append(ChainTo(t, t[j].parent), j)
 (* ---------------- structural invariants of every reachable tree ---------------- *)
 Rooted == Len(tree) >= 1 /\ tree[1].parent = 0 /\ tree[1].cost = 0
 Acyclic == \A i \in 2 .. Len(tree) : tree[i].parent \in 1 .. i - 1
-AcceptedInRange == \A i \in 2 .. Len(tree) : tree[i].dn >= MinD /\ tree[i].dn <= MaxD
+AcceptedInRange == \A i \in 2 .. Len(tree) : tree[i].dn >= MinD - Tol /\ tree[i].dn <= MaxD + Tol
 ChainReachesRoot == \A i \in 1 .. Len(tree) : ChainTo(tree, i)[1] = 1
 =============================================================================
